@@ -41,7 +41,8 @@ Apply(w, b) ==
   LET l == Lemmatize(w) IN
   IF IsSplittable(Patterns, l) THEN
      LET g == ExecGroup(Split(Patterns, l)) IN
-     IF g.st # "ok" THEN R(g.st, b)
+     IF g.st = "incomplete" THEN R("nan", b)         \* repaired: a compound ending on a dangling conjunction is not a number
+     ELSE IF g.st # "ok" THEN R(g.st, b)
      ELSE IF DLen(g.ds) > 3 /\ DLen(g.ds) <= 6 /\ ~IsRangeFree(b, 3, 5) THEN R("overlap", b)
      ELSE LET r == Put(b, g.ds.buf) IN
           IF r.st # "ok" THEN R(r.st, b)
